@@ -42,6 +42,40 @@ deriving DecidableEq, Repr
 def hasAccess (required user : List String) : Bool :=
   required.isEmpty || required.any (fun r => user.contains r)
 
+/-! `has_access` as it is written in the source, translated by the route translator (`Gen.Routes.hasAccessExpr`);
+`Properties/C32.lean` proves that it evaluates to `hasAccess` for all role lists. -/
+
+inductive SetExpr where
+  | req                        -- set(engine_or_run.required_roles)
+  | user                       -- user_roles
+  | inter (a b : SetExpr)
+  | union (a b : SetExpr)
+deriving DecidableEq, Repr
+
+inductive AccExpr where
+  | isEmpty (s : SetExpr)      -- len(s) == 0
+  | nonEmpty (s : SetExpr)     -- len(s) > 0
+  | or (a b : AccExpr)
+  | and (a b : AccExpr)
+  | not (a : AccExpr)
+  | unknown (src : String)     -- outside the translated fragment
+deriving DecidableEq, Repr
+
+def SetExpr.eval (required user : List String) : SetExpr → List String
+  | .req => required
+  | .user => user
+  | .inter a b => (a.eval required user).filter (fun x => (b.eval required user).contains x)
+  | .union a b => a.eval required user ++ b.eval required user
+
+/-- `none`: the source contains something that is not modelled -/
+def AccExpr.eval (required user : List String) : AccExpr → Option Bool
+  | .isEmpty s => some (s.eval required user).isEmpty
+  | .nonEmpty s => some (!(s.eval required user).isEmpty)
+  | .or a b => do some ((← a.eval required user) || (← b.eval required user))
+  | .and a b => do some ((← a.eval required user) && (← b.eval required user))
+  | .not a => do some (!(← a.eval required user))
+  | .unknown _ => none
+
 /-- a process unit, recent engine or recent run: id and required roles -/
 structure Res where
   id : String
